@@ -692,9 +692,11 @@ func (c *checker) partValidation(s *structSpec, envNames map[string][]string, th
 					c.run.detailed = false
 					if req&zp != 0 && zm == 0 && del == srcDef {
 						// the same case with Validate methods that report the missing field themselves
-						sc2 := *sc
-						sc2.ValidatorStyle = "library-error"
-						c.eval(s, &sc2, true)
+						for _, style := range []string{"library-error", "library-error-colon"} {
+							sc2 := *sc
+							sc2.ValidatorStyle = style
+							c.eval(s, &sc2, true)
+						}
 					}
 					if want {
 						sampled = true
